@@ -399,6 +399,14 @@ func (c *textCase) run() (res textRun) {
 	} else if c.AddSource {
 		res.File, res.LineNo, res.WantSrc = "", "0", ":0"
 	}
+	if len(c.Msg)%4 == 2 {
+		// an earlier record of the same handler family, in the same second but another zone and with other
+		// attributes: whatever the family remembers from it must not show in the record under test
+		prev := slog.NewRecord(c.Time.Add(time.Duration(len(c.Msg))*time.Microsecond).In(time.FixedZone("", (len(c.Msg)%25-12)*3600+1800)), slog.LevelWarn, "earlier record", 0)
+		prev.AddAttrs(slog.String("earlier", "x y"), slog.Group("eg", slog.Int("n", 1)))
+		h.Handle(context.Background(), prev)
+		w.data, w.writes = nil, 0
+	}
 	r := slog.NewRecord(c.Time, c.Level, c.Msg, pc)
 	r.AddAttrs(c.Attrs...)
 	r.Attrs(func(a slog.Attr) bool { res.Attrs = append(res.Attrs, textWalk(a)); return true })
@@ -769,6 +777,9 @@ func textLeafValue(r *Rng, s *Stream) slog.Value {
 func textTime(r *Rng) time.Time {
 	sec := int64(r.U64()%4_000_000_000) - 1_000_000_000
 	t := time.Unix(sec, int64(r.Intn(1_000_000_000)))
+	if r.Chance(6) {
+		t = time.Unix(int64(r.Intn(3))-1, int64(r.Intn(2))*500_000_000) // the epoch itself and its neighbours
+	}
 	switch r.Intn(4) {
 	case 0:
 		return t.UTC()
